@@ -632,7 +632,7 @@ func (c *errCase) coq(w errWalk) string {
 }
 
 // runErrCase: (P) + the (K) case
-func runErrCase(c *errCase, res *vlib.Result, label string) (kcase string, failed bool) {
+func runErrCase(c *errCase, res *vlib.Result, label string) (kcase string, failed bool, nontrivial bool) {
 	cmp := vlib.ComparerByID(c.Cid)
 	var w errWalk
 	var fs []*faulty
@@ -663,11 +663,11 @@ func runErrCase(c *errCase, res *vlib.Result, label string) (kcase string, faile
 	})
 	if hung {
 		res.Violate(fmt.Sprintf("%s (%s): a call did not return within 20s", c.Kind, label), c)
-		return "", true
+		return "", true, false
 	}
 	if pan != nil {
 		res.Violate(fmt.Sprintf("%s (%s): panic %v", c.Kind, label, pan), c)
-		return "", true
+		return "", true, false
 	}
 	res.Count("err_"+c.Kind, 1)
 	if w.Panicked {
@@ -691,23 +691,25 @@ func runErrCase(c *errCase, res *vlib.Result, label string) (kcase string, faile
 				res.Count("err_known_"+known, 1)
 			} else {
 				res.Violate(fmt.Sprintf("%s (%s), comparer %d, strict %v: %s", c.Kind, label, c.Cid, c.Strict, bad), c)
-				return "", true
+				return "", true, false
 			}
 		}
 	} else {
 		bad := checkIndexedErr(c, cmp, w)
 		if bad != "" {
 			res.Violate(fmt.Sprintf("%s (%s), comparer %d, strict %v: %s", c.Kind, label, c.Cid, c.Strict, bad), c)
-			return "", true
+			return "", true, false
 		}
 	}
+	nontrivial = w.Panicked
 	for _, o := range w.Obs {
 		if o.Err != 0 {
 			res.Count(fmt.Sprintf("err_walks_reaching_error_class_%d", o.Err), 1)
+			nontrivial = true
 			break
 		}
 	}
-	return c.coq(w), false
+	return c.coq(w), false, nontrivial
 }
 
 // (P) for the indexed iterator with failing data / index iterators: release and stickiness rules, every
